@@ -69,7 +69,10 @@ namespace options
         void usage(std::ostream& s) const;
 
     private:
-        const parser& parser_;
+        friend class options::parser;
+
+        // not a reference: the parser re-seats it when the parser object is moved
+        const parser* parser_;
         std::string name_;
         std::string description_;
 
